@@ -115,6 +115,32 @@ example : (sniffTcp [.data [22, 3, 1, 0, 100, 1, 0, 0], .stall, .data [82, 69, 8
     relayBytes (sniffTcp [.data [22, 3, 1, 0, 100, 1, 0, 0], .stall, .data [82, 69, 83, 84], .eof]) .prefixRead
       = ([22, 3, 1, 0, 100, 1, 0, 0, 82, 69, 83, 84], none) := by decide
 
+/-- **The sniffer never waits past its timeout.** With the clock in the model (one absolute deadline
+`D` = creation time + sniffing timeout, armed for every read): whatever the client does — bytes
+trickling in, any gaps, EOF after a partial hello (the loop then spins on EOF reads), reset —
+`SniffTcp` has returned by time `D`. -/
+theorem sniff_returns_by_deadline (D : Nat) (script : List TEv) : (sniffTcpT D script).time ≤ D := by
+  have := (sniffLoopT_time D script [] false 0).2
+  simpa [sniffTcpT] using this
+
+/-- a client that trickles: header at 40 ms, the rest at 130 ms, timeout 100 ms: timed out at 100 -/
+example : (sniffTcpT 100 [⟨40, .data [22, 3, 1, 0, 100]⟩, ⟨90, .data [1, 0, 0]⟩]).result = .error .timeout ∧
+    (sniffTcpT 100 [⟨40, .data [22, 3, 1, 0, 100]⟩, ⟨90, .data [1, 0, 0]⟩]).time = 100 := by decide
+
+/-- The clock changes nothing else: answer, buffer and latched error of the timed sniffer are those
+of the untimed model on the script in which the deadline shows up as a `stall`, and that script
+carries the same client bytes — so `relay_identity` and the soundness/completeness theorems below
+apply to timed behaviour as they stand. -/
+theorem sniff_timed_refines (D : Nat) (script : List TEv) :
+    (sniffTcpT D script).result = (sniffTcp (untime D 0 script)).result ∧
+    (sniffTcpT D script).buf = (sniffTcp (untime D 0 script)).buf ∧
+    (sniffTcpT D script).dataError = (sniffTcp (untime D 0 script)).dataError ∧
+    clientBytes (untime D 0 script) = clientBytes (script.map TEv.ev) ∧
+    clientEnd (untime D 0 script) = clientEnd (script.map TEv.ev) := by
+  obtain ⟨h1, _, h3, h4⟩ := sniffLoopT_refines D script [] false 0
+  obtain ⟨h5, h6⟩ := clientBytes_untime D script 0
+  exact ⟨h1, h3, h4, h5, h6⟩
+
 /-- **Soundness of the stream answer.** Whatever the client sends and however it is cut, a name
 `SniffTcp` reports is `NormalizeDomain` of a name the bytes read so far carry — a `host_name` entry
 (TLS) or the value of a complete `Host` line (HTTP) — and those bytes are a prefix of what the
